@@ -43,6 +43,11 @@ CHECKS = {
             "run that matches the dialect's row-limiting grammar with the limit/offset values (or their placeholders' list entries) in the right slots; "
             "SQLite-class statements are executed and must return rows[m:m+n].",
             "Trusted: the row-limiting grammars written from vendor documentation; the reference lexers."),
+    "C05": ("Hypothesis-generated values (adversarial + full-Unicode strings, numerics, temporal, UUID, enum, nested JSON) x 21 positions x 6 classes; metamorphic marker/value rendering decoded by the reference lexer; SQLite evaluates the literal",
+            "The statement rendered with the value and with a benign marker must be the same token stream except for exactly one literal (group) at the marker, "
+            "whose decoded value equals the original under the dialect's escape rules; any early end of the literal, comment opener or placeholder look-alike "
+            "changes the surrounding token stream and is reported. SQLite additionally evaluates the literal text.",
+            "Trusted: the dialect lexers (self-tested for round trip and against SQLite at the start of every shard)."),
 }
 
 NOT_BUILT = {}
